@@ -267,6 +267,7 @@ apply_overrides(sim_config *c, const Params *p)
 	OVI(sndbuf_max);
 	OVI(conn_delay_max_ns);
 	OVD(accept_err_p);
+	OVD(unix_backlog_full_p);
 	OVI(fail_alloc_k);
 	OVD(fail_alloc_p);
 	OVI(trace_level);
